@@ -58,6 +58,11 @@ ASSUMPTIONS = [
     "timing dependent by design); tasks carry limits over resources r0, r1, g",
     "handle workflows: main() creates handles and passes them to sibling jobs use(h, b) / use(step(h, a), b) whose other argument is "
     "a constant or slow(b); handle sources: one shared handle, a handle per lane, an explicit fork h.fork('k')",
+    "catch_all workflows (oracle only; the Lean model has no catch_all, its meaning is the one of the C01 model: every term is awaited and "
+    "the error re-raised is that of the first failing term BY POSITION, of the first one not matched by the recover classes when a "
+    "recover is given): main() = catch_all([fail(k, cls) | fail(ok(k), cls) | ok(x) ...]) with at least two failing terms, alone (the "
+    "error is the outcome of the execution: every job has ended by then), with a recover, under catch(..., Exception, describe), as "
+    "argument of another task",
     "fork_thread workflows: main() = cond(fork_thread(A), B, B) with B a call into a handle-free workflow and A a call of a task that "
     "calls nothing (one forked job: it has ended, or it has not, when main resolves); main is the root job",
     "limit configurations: every resource 100 (unlimited), every resource at the largest single-job demand (1 unless a task asks for 2: "
@@ -307,6 +312,20 @@ def close_sched(sched):
         pass
 
 
+def render_value(v):
+    """text of a recorded value that is not an int (exceptions by class and arguments; no tracebacks, no addresses)"""
+    from redun.scheduler import ErrorValue
+    if isinstance(v, ErrorValue):
+        return "Error(%s)" % render_value(v.error)
+    if isinstance(v, BaseException):
+        return "%s%r" % (type(v).__name__, tuple(v.args))
+    if isinstance(v, (list, tuple)):
+        return "[" + ",".join(render_value(x) for x in v) + "]"
+    if isinstance(v, (int, str)) and not isinstance(v, bool):
+        return repr(v)
+    return "?" + type(v).__name__
+
+
 class Abs:
     """digest -> pre-image in the model's notation (rows of one finished run)"""
 
@@ -338,7 +357,7 @@ class Abs:
         else:
             value, ok = self.sched.backend.get_value(d)
             if not ok or isinstance(value, bool) or not isinstance(value, int):
-                r = Raw("?" + type(value).__name__)
+                r = Raw("v" + render_value(value).encode().hex()) if ok else Raw("?missing")
             else:
                 r = value
         self.memo[d] = r
@@ -432,6 +451,10 @@ def run_once(env, expr_fn, limits_cfg, ctl, task_ids, handle_ids, taps=None):
         if status == "ok":
             val = "i%d" % payload if isinstance(payload, int) and not isinstance(payload, bool) else "?" + type(payload).__name__
             rows, obs["digests"], obs["jobs"] = read_rows(sched, log, task_ids(), handle_ids)
+        elif status == "err" and taps == "errors-are-outcomes":
+            # a workflow whose outcome may be an error raised after every job has ended (catch_all): still an outcome
+            status, val = "ok", "err:" + render_value(payload)
+            rows, obs["digests"], obs["jobs"] = read_rows(sched, log, task_ids(), handle_ids)
         else:
             val = status + ":" + (type(payload).__name__ if status == "err" else str(payload)[:60])
             rows, obs["digests"], obs["jobs"] = set(), set(), set()
@@ -504,7 +527,7 @@ class Batch:
             i += len(qs)
 
 
-def explore(ctx, env, label, kind, spec_json, expr_fn, task_ids, handle_ids, model_for, cfgs, cap, nrandom, classify):
+def explore(ctx, env, label, kind, spec_json, expr_fn, task_ids, handle_ids, model_for, cfgs, cap, nrandom, classify, taps=None):
     """Runs one workflow under the limit configurations `cfgs` and many completion orders; compares every run with the model
     (`model_for(obs) -> request line`) and all runs with each other.  Returns the list of run records."""
     runs = []
@@ -513,11 +536,12 @@ def explore(ctx, env, label, kind, spec_json, expr_fn, task_ids, handle_ids, mod
     for cname, cfg in cfgs:
         def run_with(schedule, cfg=cfg, cname=cname):
             ctl = make_ctl(schedule=schedule)
-            status, val, rows, obs = run_once(env, expr_fn, cfg, ctl, task_ids, handle_ids)
+            status, val, rows, obs = run_once(env, expr_fn, cfg, ctl, task_ids, handle_ids, taps)
             rec = dict(limits=cname, schedule=[c for _, c in ctl.choices], status=status, value=val, rows=rows, obs=obs,
                        njobs=len(ctl.submissions))
             runs.append(rec)
-            pending.append((rec, model_for(obs)))
+            if model_for is not None:
+                pending.append((rec, model_for(obs)))
             return rec, ctl.choices
         n0 = len(runs)
         for _ in enumerate_schedules(run_with, cap):
@@ -529,14 +553,21 @@ def explore(ctx, env, label, kind, spec_json, expr_fn, task_ids, handle_ids, mod
                 if (cpu() > HARD_STOP[ctx.tier] or ctx.elapsed() > HARD_WALL[ctx.tier]):
                     break
                 ctl = make_ctl(seed=ctx.rng.randrange(1 << 30))
-                status, val, rows, obs = run_once(env, expr_fn, cfg, ctl, task_ids, handle_ids)
+                status, val, rows, obs = run_once(env, expr_fn, cfg, ctl, task_ids, handle_ids, taps)
                 rec = dict(limits=cname, schedule=[c for _, c in ctl.choices], status=status, value=val, rows=rows, obs=obs,
                            njobs=len(ctl.submissions))
                 runs.append(rec)
-                pending.append((rec, model_for(obs)))
+                if model_for is not None:
+                    pending.append((rec, model_for(obs)))
         ctx.count("schedules_enumerated_exhaustively", exhausted)
-    ctx.batch.add([q for _, q in pending],
-                  lambda replies: finish_explore(ctx, label, kind, spec_json, runs, pending, replies, classify))
+    if model_for is None:
+        # oracle only (a construct the Lean model does not have): the runs are compared with each other
+        for rec in runs:
+            rec["model_value"], rec["model_rows"], rec["dup"] = rec["value"], rec["rows"], False
+        finish_explore(ctx, label, kind, spec_json, runs, [], [], classify)
+    else:
+        ctx.batch.add([q for _, q in pending],
+                      lambda replies: finish_explore(ctx, label, kind, spec_json, runs, pending, replies, classify))
     return runs
 
 
@@ -592,8 +623,88 @@ def check_flow(ctx, env, flow, label, thorough, corpus=False):
     q = "graph " + sx([Raw("tbl")] + flow.tbl()) + " " + sx([Raw("root"), 0, flow.root_arg])
     return explore(ctx, env, label, "handle-free", flow.to_json(), lambda: mod.t0(flow.root_arg), task_ids, {},
                    lambda obs: q, (flow.cfgs or limit_configs(ctx.rng, thorough, flow.limits)[:(2 if corpus and not thorough else 9)]),
-                   cap=(60 if thorough else (8 if corpus or flow.cfgs else 14)), nrandom=(12 if thorough else (0 if corpus or flow.cfgs else 4)),
+                   cap=(60 if thorough else (5 if corpus else (8 if flow.cfgs else 14))), nrandom=(12 if thorough else (0 if corpus or flow.cfgs else 4)),
                    classify=lambda a, b: SIG_NEW)
+
+
+# ------------------------------------------------------------------------------------------- catch_all workflows (oracle only)
+ERRN = ["ValueError", "KeyError", "ZeroDivisionError"]
+
+
+class CFlow:
+    """main() built around catch_all([terms ...]).  terms: ("fail", k, cls) | ("faild", k, cls) (fail(ok(k), cls): fails later) |
+    ("ok", x); shape: "bare" | "caught" | "recover" | "recover-caught" | "wrapped"; rec_classes: classes the catch_all recover
+    matches.  The Lean model has no catch_all; its meaning is C01's: all terms are awaited, the error re-raised is the one of the
+    first failing term BY POSITION (first non-matching one when a recover is given) - never a function of the completion order."""
+
+    def __init__(self, terms, shape, rec_classes, limits):
+        self.terms, self.shape, self.rec_classes, self.limits = terms, shape, rec_classes, limits
+
+    def to_json(self):
+        return dict(kind="catch_all", terms=self.terms, shape=self.shape, rec_classes=self.rec_classes, limits=self.limits)
+
+    def module_text(self, ns):
+        def opt(l):
+            return "" if l is None else ", limits=%r" % (l,)
+        ts = []
+        for t in self.terms:
+            if t[0] == "ok":
+                ts.append("ok(%d)" % t[1])
+            elif t[0] == "fail":
+                ts.append("fail(%d, %d)" % (t[1], t[2]))
+            else:
+                ts.append("fail(ok(%d), %d)" % (t[1], t[2]))
+        terms = "[" + ", ".join(ts) + "]"
+        rc = "(" + ", ".join(ERRN[c] for c in self.rec_classes) + ("," if len(self.rec_classes) == 1 else "") + ")"
+        inner = {"bare": "catch_all(%s)" % terms, "caught": "catch_all(%s)" % terms,
+                 "recover": "catch_all(%s, %s, rec_all)" % (terms, rc), "recover-caught": "catch_all(%s, %s, rec_all)" % (terms, rc),
+                 "wrapped": "catch_all(%s)" % terms}[self.shape]
+        expr = {"bare": inner, "recover": inner, "caught": "catch(%s, Exception, describe)" % inner,
+                "recover-caught": "catch(%s, Exception, describe)" % inner,
+                "wrapped": "wrap(catch(%s, Exception, describe))" % inner}[self.shape]
+        out = ["from redun import task", "from redun.scheduler import catch, catch_all", "",
+               "ERRS = [ValueError, KeyError, ZeroDivisionError]", "",
+               "def _code(e):", "    return 100 * (ERRS.index(type(e)) + 1) + int(e.args[0])", "",
+               '@task(name="fail", namespace="%s", version="1"%s)' % (ns, opt(self.limits)), "def fail(k, c):", "    raise ERRS[c](k)", "",
+               '@task(name="ok", namespace="%s", version="1"%s)' % (ns, opt(self.limits)), "def ok(x):", "    return x", "",
+               '@task(name="describe", namespace="%s", version="1")' % ns, "def describe(error):", "    return _code(error)", "",
+               '@task(name="rec_all", namespace="%s", version="1")' % ns, "def rec_all(values):",
+               "    return sum(_code(v) if isinstance(v, Exception) else v for v in values)", "",
+               '@task(name="wrap", namespace="%s", version="1")' % ns, "def wrap(x):", "    return x + 1", "",
+               '@task(name="main", namespace="%s", version="1")' % ns, "def main():", "    return " + expr, ""]
+        return "\n".join(out)
+
+
+def gen_cflow(rng):
+    n = rng.choice([2, 3, 3, 4])
+    terms = []
+    for i in range(n):
+        r = rng.random()
+        if r < 0.3:
+            terms.append(["ok", 40 + i])
+        elif r < 0.7:
+            terms.append(["fail", i + 1, rng.randrange(3)])
+        else:
+            terms.append(["faild", i + 1, rng.randrange(3)])
+    if sum(1 for t in terms if t[0] != "ok") < 2:                      # at least two failing terms, with different errors
+        terms[0], terms[-1] = ["faild", 1, 0], ["fail", n, rng.choice([0, 1])]
+    shape = rng.choice(["bare", "caught", "caught", "recover", "recover-caught", "recover-caught", "wrapped"])
+    rec = rng.choice([[1], [1], [0, 1], [2], [0, 1, 2]])
+    return CFlow(terms, shape, rec, rng.choice([None, None, ["r0"], ["g"]]))
+
+
+def check_cflow(ctx, env, cf, label, thorough, corpus=False):
+    ns = "c07c%d" % env.n
+    env.n += 1
+    mod = env.load_module(ns + "_mod", cf.module_text(ns))
+
+    def task_ids():
+        return {mod.main.hash: 0, mod.fail.hash: 1, mod.ok.hash: 2, mod.describe.hash: 3, mod.rec_all.hash: 4, mod.wrap.hash: 5}
+
+    cfgs = limit_configs(ctx.rng, thorough, [cf.limits])[:(2 if not thorough else 9)]
+    return explore(ctx, env, label, "catch_all", cf.to_json(), lambda: mod.main(), task_ids, {}, None, cfgs,
+                   cap=(40 if thorough else (6 if corpus else 12)), nrandom=(8 if thorough else (0 if corpus else 2)), classify=lambda a, b: SIG_NEW,
+                   taps="errors-are-outcomes")
 
 
 # ------------------------------------------------------------------------------------------- handle workflows
@@ -668,7 +779,7 @@ def gen_hflow(rng):
     return HFlow(lanes, rng.choice([None, ["r0"], ["g"], {"r0": 2}]), rng.choice([None, ["r1"], ["g"]]))
 
 
-def check_hflow(ctx, env, hf, label, thorough, recount, witness=None):
+def check_hflow(ctx, env, hf, label, thorough, recount, witness=None, corpus=False):
     ns = "c07h%d" % env.n
     env.n += 1
     mod = env.load_module(ns + "_mod", hf.module_text(ns))
@@ -721,8 +832,10 @@ def check_hflow(ctx, env, hf, label, thorough, recount, witness=None):
         ctx.expect_known(SIG_ORDER, runs[0][1] != runs[1][1], case=runs[1][2],
                          what="use(h, slow(10)) / use(h, slow(11)) get the handle forks 1/2 or 2/1 depending on which slow() finishes first")
         return runs
+    if corpus and not thorough:
+        cfgs = cfgs[:2]
     return explore(ctx, env, label, "handles", hf.to_json(), lambda: mod.main(), task_ids, handle_ids, model_for, cfgs,
-                   cap=(16 if thorough else 6), nrandom=(4 if thorough else 2), classify=classify)
+                   cap=(16 if thorough else (4 if corpus else 6)), nrandom=(4 if thorough else (0 if corpus else 2)), classify=classify)
 
 
 # ------------------------------------------------------------------------------------------- fork_thread workflows
@@ -822,7 +935,7 @@ def run(ctx):
     env = Env()
     ctx.batch = Batch(ctx)
     thorough = ctx.tier == "thorough"
-    budget = 19 if ctx.tier == "quick" else 300          # CPU seconds of this process (time.process_time)
+    budget = 22 if ctx.tier == "quick" else 300          # CPU seconds of this process (time.process_time)
     try:
         t_start = ctx.elapsed()
         recount, hf_re = probe_recount(ctx, env)
@@ -831,9 +944,12 @@ def run(ctx):
         w = HFlow([dict(src="shared", step=None, b=10, slow=True), dict(src="shared", step=None, b=11, slow=True)], None, None)
         check_hflow(ctx, env, w, "corpus:handle-order-witness", thorough, recount, witness=SIG_ORDER)
         check_fork(ctx, env, Flow([("arg",), ("arg",)], [None, None], 0), (0, 7), (1, 3), "corpus:fork-thread-witness", thorough, witness=True)
-        check_hflow(ctx, env, hf_re, "corpus:limits-reentry", thorough, recount)
+        check_hflow(ctx, env, hf_re, "corpus:limits-reentry", thorough, recount, corpus=True)
         for name, fl in corpus_flows().items():
             check_flow(ctx, env, fl, "corpus:" + name, thorough, corpus=True)
+        # catch_all over two terms failing with different errors, the earlier one failing later
+        check_cflow(ctx, env, CFlow([["faild", 1, 0], ["fail", 2, 0], ["ok", 40]], "caught", [1], None), "corpus:catch-all-first-error", thorough, corpus=True)
+        check_cflow(ctx, env, CFlow([["faild", 1, 1], ["faild", 2, 0], ["fail", 3, 2]], "recover", [1], None), "corpus:catch-all-first-unmatched", thorough, corpus=True)
         ctx.batch.flush()
         ctx.note("build+audit %.0fs, corpus %.0fs" % (t_start, ctx.elapsed() - t_start))
         rng = ctx.rng
@@ -846,7 +962,9 @@ def run(ctx):
                     check_flow(ctx, env, gen_parked_twins(rng), "flow%d" % k, thorough)
                 else:
                     check_flow(ctx, env, gen_flow(rng, serial=rng.random() < 0.3, shared=mode < 0.3, twin=0.3 <= mode < 0.55), "flow%d" % k, thorough)
-            elif r < 0.88:
+            elif r < 0.78:
+                check_cflow(ctx, env, gen_cflow(rng), "cflow%d" % k, thorough)
+            elif r < 0.90:
                 check_hflow(ctx, env, gen_hflow(rng), "hflow%d" % k, thorough, recount)
             else:
                 fl = gen_flow(rng)
@@ -878,6 +996,8 @@ def replay(ctx, case):
         if spec.get("kind") == "flow":
             cfgs = [(c[0], c[1]) for c in spec["cfgs"]] if spec.get("cfgs") else None
             check_flow(ctx, env, Flow([tup(b) for b in spec["bodies"]], spec["limits"], spec["root_arg"], cfgs=cfgs), "replay", True)
+        elif spec.get("kind") == "catch_all":
+            check_cflow(ctx, env, CFlow(spec["terms"], spec["shape"], spec["rec_classes"], spec["limits"]), "replay", True)
         elif spec.get("kind") == "handles":
             lanes = [dict(l, src=(l["src"] if l["src"] == "shared" else tuple(l["src"]))) for l in spec["lanes"]]
             check_hflow(ctx, env, HFlow(lanes, spec["use_limits"], spec["slow_limits"]), "replay", True, recount)
